@@ -331,6 +331,8 @@ pub fn directed(names: &[String]) -> Vec<Trace> {
         ("failed set_rules_dir", vec![Op::SetRulesDir("/sim/nonexistent".into())]),
         ("failed set_rules_dir after a good one", vec![Op::SetRulesDir(MOUNT_A.into()), Op::SetMathml(ExprRef::Pool(3)), Op::SetRulesDir("/sim/A/Rules/prefs.yaml".into())]),
         ("failed set_preference", vec![Op::SetRulesDir(MOUNT_A.into()), Op::SetMathml(ExprRef::Pool(3)), Op::SetPref("Language".into(), "e".into())]),
+        ("failed set_preference (language directory without rule files)", vec![Op::SetRulesDir(MOUNT_A.into()), Op::SetMathml(ExprRef::Pool(3)), Op::SetPref("Language".into(), "zh".into())]),
+        ("failed set_preference (LanguageAuto while Language is not Auto)", vec![Op::SetRulesDir(MOUNT_A.into()), Op::SetPref("Language".into(), "es".into()), Op::SetMathml(ExprRef::Pool(3)), Op::SetPref("LanguageAuto".into(), "sv".into())]),
         ("failed navigation", vec![Op::SetRulesDir(MOUNT_A.into()), Op::SetMathml(ExprRef::Pool(0)), Op::Cmd("NoSuchCommand".into()), Op::Cmd("MoveCellUp".into())]),
         ("failed set_navigation_node", vec![Op::SetRulesDir(MOUNT_A.into()), Op::SetMathml(ExprRef::Pool(3)), Op::SetNavNode(IdRef::Lit("nope".into()), 2)]),
     ];
@@ -341,6 +343,16 @@ pub fn directed(names: &[String]) -> Vec<Trace> {
             steps.push(rec(ename));
             v.push(mk(format!("after-error-{}-{}-{}", ename, i, op.name()), steps));
         }
+    }
+    // 2b. the failing call made again (same answer expected: an error leaves nothing behind), then recovery
+    for (ename, pre) in &error_makers {
+        let mut steps: Vec<Step> = pre.iter().cloned().map(Step::Call).collect();
+        if let Some(last) = pre.last() {
+            steps.push(Step::Call(last.clone()));
+            steps.push(Step::Call(last.clone()));
+        }
+        steps.push(rec(ename));
+        v.push(mk(format!("error-repeated-{}", ename), steps));
     }
     // 3. every preference name x value class (one trace per name; a panic anywhere is the violation)
     let values = ["true", "FALSE", "1.5", "NaN", "", " ", "Auto", "maybe", "\u{a0}", "0", "-1e400", "[]"];
